@@ -18,6 +18,8 @@ def main(tier, seed, replay=None):
         fam = fams[i % len(fams)]
         c = gen_problem(rng, family=fam, quant=(8 if i % 8 else None), S=(rng.randint(1, 6) if i % 2 else None),
                         scalar=("f32" if i % 5 == 4 else "f64"))
+        if i % 4 == 1:
+            scale_up_for_eps(rng, c)    # a large absolute threshold below every singular value: the projector must stay the full one
         c["ops"] = states.observe_at(rng, c, nsets=1)
         cases.append(c)
     results, nterms, nskip, hist = states.run_states(run, "C03", binp, cases, 4, lambda code: code >= 10 or code == 2, "Jacobian")
